@@ -79,7 +79,15 @@ type generator struct {
 
 	namingFunc            NameFunc
 	externalReferenceFunc externalReferenceFunc
+
+	// nesting of the nodes being declared: CUE evaluates lazily, and a definition
+	// that refines a reference to itself (`Node: {children: [...Node & {leaf: bool}]}`)
+	// can be unfolded for ever.
+	depth int
 }
+
+// maxNestingDepth is far beyond what hand-written schemas reach.
+const maxNestingDepth = 200
 
 func GenerateAST(val cue.Value, c Config) (*ast.Schema, error) {
 	g := &generator{
@@ -332,6 +340,12 @@ func (g *generator) structFields(v cue.Value) ([]ast.StructField, error) {
 }
 
 func (g *generator) declareNode(v cue.Value) (ast.Type, error) {
+	g.depth++
+	defer func() { g.depth-- }()
+	if g.depth > maxNestingDepth {
+		return ast.Type{}, errorWithCueRef(v, "nested more than %d levels deep: recursive definitions have to go through a plain reference", maxNestingDepth)
+	}
+
 	v = g.removeTautologicalUnification(v)
 
 	// This node is referring to another definition
